@@ -47,6 +47,7 @@ def run(ctx: Ctx, rep: Report) -> None:
     rep.rule("C05-R5", "API arguments reach the PDU fields (decided by C07-R1, C02-R3, C04-R1)", floor=1)
     rep.rule("C05-R6", "msgFlags state the credentials' security level and mark confirmed-class PDUs reportable (shared with C10-R1)", floor=5)
     rep.rule("C05-R8", "the v3 security parameters emitted carry the discovered authoritative engine id, boots, time and the user name (shared with C10-R2)", floor=3)
+    rep.rule("C05-R11", "the request of every operation carries the caller's OIDs position by position, in order, bound to NULL or to the typed value supplied (shared with C04)", floor=1)
     rep.rule("C05-R10", "typed SET values reach the wire unchanged: Counter32/64 wrap per RFC, every in-range value of an application type is stored as given (shared with C17-R1)", floor=10)
     rep.rule("C05-R9", "v3 requests: encrypt, then splice the digest into otherwise unchanged security parameters; with privacy the scoped PDU travels as the plug-in's ciphertext under the agent-localised key (shared with C10-R3, C11-R1/R2/R4)", floor=6)
     rep.rule("C05-R7", "the version spoken is that of the current credentials: a change of credential family installs the matching message-processing model (shared with C18-R4)", floor=3)
@@ -298,6 +299,12 @@ def run(ctx: Ctx, rep: Report) -> None:
     rep.adopt_rules(ctx.sub_run("c11", rep), "C05-R9", ["C11-R1", "C11-R2", "C11-R4"])
     # the caller's typed SET values: the application type constructors store every in-range value as given
     rep.adopt_rules(ctx.sub_run("c17", rep), "C05-R10", ["C17-R1"])
+    # what the operations put into the request: one binding per requested position, in the caller's order (duplicates
+    # included), NULL or the typed value supplied - the evaluated request side of the operation contracts
+    sub4 = ctx.sub_run("c04", rep)
+    got = rep.adopt_rules(sub4, "C05-R11", ["C04-R3", "C04-R1", "C04-R7"], containing="evaluated request")
+    got += rep.adopt_rules(sub4, "C05-R11", ["C04-R3", "C04-R1", "C04-R7"], containing="is sent")
+    got += rep.adopt_rules(sub4, "C05-R11", ["C04-R1"], containing="binding per requested OID")
     sub = ctx.sub_run("c18", rep)
     rep.adopt_rules(sub, "C05-R7", ["C18-R4"])
 
